@@ -20,3 +20,21 @@ Print Assumptions C10_history_independent_seq.
 Theorem C10_cursor_never_read : forall h t c1 c2 p, rz c1 = rz c2 -> apply_path h t c1 p = apply_path h t c2 p.
 Proof. exact apply_path_cursor_irrelevant. Qed.
 Print Assumptions C10_cursor_never_read.
+
+(* (4) the rasteriser is back in its canonical initial state after every call that returns, whatever the call drew:
+   no edge, bound or active-list entry survives a call *)
+Require Import RQ.RasterIdle RQ.IdleProofs.
+Theorem C10_rasteriser_idle_after_every_call : forall st o st', raster_ok st -> step_op st o = Ok st' -> raster_ok st'.
+Proof. exact step_op_idle. Qed.
+Print Assumptions C10_rasteriser_idle_after_every_call.
+Theorem C10_fresh_target_is_idle : forall w h buf, 0 <= h -> raster_ok (dt_new w h buf).
+Proof. exact dt_new_raster_ok. Qed.
+Print Assumptions C10_fresh_target_is_idle.
+
+(* (5) hence (1) and (2) need no hypothesis about the rasteriser for reachable states: two targets reached from fresh
+   targets of the same size by ANY two histories, which show the same pixels, clips, layers and transform, are
+   indistinguishable by every later call *)
+Theorem C10_reachable_states_depend_on_visible_state_only : forall w h buf1 buf2 ops1 ops2 a b, 0 <= h ->
+  run_ops (dt_new w h buf1) ops1 = Ok a -> run_ops (dt_new w h buf2) ops2 = Ok b -> vis_eq a b -> same_input a b.
+Proof. exact reachable_same_input. Qed.
+Print Assumptions C10_reachable_states_depend_on_visible_state_only.
